@@ -26,7 +26,19 @@ CASE_TIMEOUT = 300.0
 
 FINAL = ('success', 'failed', 'cancelled')
 OPS = ['queued', 'running', 'set_result', 'set_exc', 'set_exc_override', 'cancel', 'cancel_fatal', 'announce', 'add_cb', 'add_cleanup',
-       'fut_set_exc', 'fut_cancel']
+       'fut_set_exc', 'fut_cancel', 'cancel_badexc']
+# 'obs' (threads only): what a user sees - 'pending' while done has not been announced, afterwards what result() gives
+# 'final_task' (threads only): what Task.__call__ does for a transfer's final task - skip the work if the transfer is already done,
+# otherwise store the result; then announce done
+THR_OPS = OPS + ['obs', 'obs', 'final_task']
+
+
+class NeedsTwoArgs(Exception):
+    """An exception type that cannot be built from a message alone (like botocore's ClientError): cancel(msg, exc_type=...) with it
+    fails inside cancel()."""
+
+    def __init__(self, a, b):
+        super().__init__(a, b)
 
 
 class Ref:
@@ -79,6 +91,13 @@ class Ref:
                 self.status = 'cancelled'
                 if was_ns:
                     self._announce()
+        elif op == 'cancel_badexc':
+            if not self.done():
+                return ('raise', 'TypeError')  # the cancellation error cannot be built: nothing may have changed
+        elif op == 'obs':
+            if not self.announced:
+                return ('ok', 'pending')
+            return ('ok', ('raise', self.exc) if self.exc is not None else ('ret', self.result))
         elif op == 'announce':
             self._announce()
         elif op == 'add_cb':
@@ -136,6 +155,17 @@ class Real:
                 c.cancel('m', FatalError)
             elif op == 'fut_cancel':
                 self.future.cancel()
+            elif op == 'cancel_badexc':
+                c.cancel('m', NeedsTwoArgs)
+            elif op == 'final_task':
+                if not c.done():
+                    c.set_result(('R', step))
+                c.announce_done()
+            elif op == 'obs':
+                if not c._done_event.is_set():
+                    return ('ok', 'pending')
+                k, v = self.result_now()
+                return ('ok', ('raise', v) if k == 'raise' else ('ret', v))
             elif op == 'announce':
                 c.announce_done()
             elif op == 'add_cb':
@@ -332,6 +362,9 @@ def model_outcomes(thread_ops, prefix=()):
     """All (per-op results, final key) reachable by interleaving the threads'
     op lists in the reference model; cancel = mark, then announce as a separate step."""
     seqs = []
+    # result() reads the stored exception and the result without the lock, so when a reader ('obs') is present set_result is
+    # modelled as its two visible stores (exception cleared; result + status stored) with the coordinator lock held in between
+    split = any(op == 'obs' for ops in thread_ops for (op, _) in ops)
     for ti, ops in enumerate(thread_ops):
         s = []
         for oi, (op, step) in enumerate(ops):
@@ -340,11 +373,33 @@ def model_outcomes(thread_ops, prefix=()):
                 s.append((ti, oi, op, step, 'mark'))
                 s.append((ti, oi, op, step, 'c_check'))
                 s.append((ti, oi, op, step, 'c_cleanup'))
-                s.append((ti, oi, op, step, 'c_rest'))
+                s.append((ti, oi, op, step, 'c_event'))
+                s.append((ti, oi, op, step, 'c_cbs'))
             elif op == 'announce':
                 s.append((ti, oi, op, step, 'a_check'))
                 s.append((ti, oi, op, step, 'a_cleanup'))
-                s.append((ti, oi, op, step, 'a_rest'))
+                s.append((ti, oi, op, step, 'a_event'))
+                s.append((ti, oi, op, step, 'a_cbs'))
+            elif op == 'final_task':
+                s.append((ti, oi, op, step, 'f_check'))
+                if split:
+                    s.append((ti, oi, op, step, 'f_set_exc'))
+                    s.append((ti, oi, op, step, 'f_set_rest'))
+                else:
+                    s.append((ti, oi, op, step, 'f_set'))
+                s.append((ti, oi, op, step, 'a_check'))
+                s.append((ti, oi, op, step, 'a_cleanup'))
+                s.append((ti, oi, op, step, 'a_event'))
+                s.append((ti, oi, op, step, 'a_cbs'))
+            elif op == 'obs':
+                # result() reads the done event, then the stored exception, then the result: three separate reads
+                s.append((ti, oi, op, step, 'o_event'))
+                s.append((ti, oi, op, step, 'o_exc'))
+                s.append((ti, oi, op, step, 'o_exc2'))
+                s.append((ti, oi, op, step, 'o_res'))
+            elif op == 'set_result' and split:
+                s.append((ti, oi, op, step, 'sr_exc'))
+                s.append((ti, oi, op, step, 'sr_rest'))
             else:
                 s.append((ti, oi, op, step, 'atomic'))
         seqs.append(s)
@@ -369,9 +424,23 @@ def model_outcomes(thread_ops, prefix=()):
             if pos[t] == len(seqs[t]):
                 continue
             (ti, oi, op, step, part) = seqs[t][pos[t]]
+            holder = do_cl.get((-1,))
+            if holder is not None and holder != t and (part in ('mark', 'sr_exc', 'f_set_exc', 'f_set') or (
+                    part == 'atomic' and op in ('queued', 'running', 'set_result', 'set_exc', 'set_exc_override', 'fut_set_exc', 'cancel_badexc'))):
+                continue  # needs the coordinator lock, which another thread holds
             r2 = _copy.copy(ref)
             res2, pa2, dc2 = dict(res), dict(pend_ann), dict(do_cl)
-            if part == 'atomic':
+            if part in ('sr_exc', 'f_set_exc'):
+                if part == 'sr_exc' or dc2.get((ti, oi, 'f')):
+                    if part == 'sr_exc':
+                        res2[(ti, oi)] = ('ok', None)
+                    r2.exc = None
+                    dc2[(-1,)] = t
+            elif part in ('sr_rest', 'f_set_rest'):
+                if part == 'sr_rest' or dc2.pop((ti, oi, 'f'), False):
+                    r2.apply('set_result', step)
+                    dc2.pop((-1,), None)
+            elif part == 'atomic':
                 res2[(ti, oi)] = r2.apply(op, step)
             elif part == 'mark':
                 res2[(ti, oi)] = ('ok', None)
@@ -390,11 +459,31 @@ def model_outcomes(thread_ops, prefix=()):
                 if dc2.get((ti, oi)):
                     r2.cl_ran += r2.cl_pending
                     r2.cl_pending = 0
-            elif part in ('a_rest', 'c_rest'):
+            elif part in ('a_event', 'c_event'):
+                # the done event is set first (result() stops blocking), the done callbacks run after that
                 if pa2.get((ti, oi)):
                     r2.announced = True
+            elif part in ('a_cbs', 'c_cbs'):
+                if pa2.get((ti, oi)):
                     r2.cbs_ran += r2.cbs_pending
                     r2.cbs_pending = 0
+            elif part == 'f_check':
+                dc2[(ti, oi, 'f')] = not r2.done()
+            elif part == 'f_set':
+                if dc2.pop((ti, oi, 'f'), False):
+                    r2.apply('set_result', step)
+            elif part == 'o_event':
+                res2[(ti, oi)] = ('obs', 'go') if r2.announced else ('ok', 'pending')
+            elif part == 'o_exc':
+                # "if self._exception: raise self._exception" reads the field twice
+                if res2[(ti, oi)] == ('obs', 'go'):
+                    res2[(ti, oi)] = ('obs', 'raise') if r2.exc is not None else ('obs', 'go2')
+            elif part == 'o_exc2':
+                if res2[(ti, oi)] == ('obs', 'raise'):
+                    res2[(ti, oi)] = ('ok', ('raise', r2.exc if r2.exc is not None else ('?', "TypeError('exceptions must derive from BaseException')")))
+            elif part == 'o_res':
+                if res2[(ti, oi)] == ('obs', 'go2'):
+                    res2[(ti, oi)] = ('ok', ('ret', r2.result))
             npos = tuple(p + 1 if k == t else p for k, p in enumerate(pos))
             stack.append((npos, r2, res2, pa2, dc2))
     return outs
@@ -410,49 +499,82 @@ def threaded_case(case):
     runs = 0
     outcomes = model_outcomes(thread_ops, case.get('prefix', []))
     seen_finals = set()
-    inj = yieldinj.Injector(p=case.get('yield_p', 0.3), seed=case['seed'], files=['futures.py']).install()
-    try:
-        for rep in range(case.get('reps', 6)):
-            real = Real(cls)
-            for op in case.get('prefix', []):
-                real.apply(op, 90)
-            res = {}
-            rl = threading.Lock()
-            barrier = threading.Barrier(len(thread_ops))
+    window_hits = 0
+    yield_events = 0
+    for rep in range(case.get('reps', 6)):
+        real = Real(cls)
+        for op in case.get('prefix', []):
+            real.apply(op, 90)
+        res = {}
+        rl = threading.Lock()
+        barrier = threading.Barrier(len(thread_ops))
+        gate = threading.Event()  # window cases: the other threads start once thread 0 sits at the line (or has finished)
+        ths = []
+        started = []
 
-            def run(ti):
+        def run(ti):
+            if not case.get('window'):
                 barrier.wait()
+            elif ti > 0:
+                gate.wait(20)
+                started.append(ti)
+            try:
                 for oi, (op, step) in enumerate(thread_ops[ti]):
                     r = real.apply(op, step)
                     with rl:
                         res[(ti, oi)] = r
+            finally:
+                if ti == 0:
+                    gate.set()
 
-            ths = [threading.Thread(target=run, args=(i,), daemon=True) for i in range(len(thread_ops))]
+        def at_window():
+            # thread 0 is held at the line: let the others run as far as they can (to completion, or until they block on it)
+            import time as _t
+
+            from .. import watchdog
+
+            gate.set()
+            end = _t.monotonic() + 0.5
+            with watchdog.polling():
+                while _t.monotonic() < end:
+                    if len(started) == len(ths) - 1 and (all(not t.is_alive() for t in ths[1:]) or watchdog.quiescent(gap=0.001)):
+                        break
+
+        wins = []
+        if case.get('window'):
+            w = case['window']
+            wins = [{'file': 'futures.py', 'line': w['lineno'], 'nth': w.get('nth', 0), 'action': at_window, 'name': w.get('name'), 'wait': 1.0}]
+        # a fresh injector per repetition (a window fires once), installed after the prefix so that the window is spent on the threads
+        inj = yieldinj.Injector(p=case.get('yield_p', 0.3), seed=case['seed'] + rep, files=['futures.py'], windows=wins).install()
+        try:
+            ths[:] = [threading.Thread(target=run, args=(i,), daemon=True) for i in range(len(thread_ops))]
             for t in ths:
                 t.start()
             for t in ths:
                 t.join(20)
-            if any(t.is_alive() for t in ths):
-                return {'verdict': 'inconclusive', 'key': None, 'violations': [], 'stats': {'thr_hung': 1}, 'summary': 'hung', 'fatal': True}
-            runs += 1
-            ob = real.observe()
-            final = (ob['status'], ob['exc'], None, ob['event'], ob['cbs_ran'], ob['cl_ran'])
-            # result compare: take result symbolic
-            c = real.coord
-            final = (ob['status'], ob['exc'], c._result, ob['event'], ob['cbs_ran'], ob['cl_ran'])
-            got = (tuple(sorted(res.items())), final)
-            seen_finals.add(final)
-            if got not in outcomes and len(viol) < 3:
-                viol.append(V(f'TransferCoordinator, threads {case["threads"]}: observed per-op results {sorted(res.items())} and final '
-                              f'state {final} match no interleaving of the reference model ({len(outcomes)} possible outcomes)',
-                              cls='TransferCoordinator', sym='not-linearizable'))
-    finally:
-        inj.uninstall()
+        finally:
+            inj.uninstall()
+        window_hits += len(inj.window_hits)
+        yield_events += inj.events
+        if any(t.is_alive() for t in ths):
+            return {'verdict': 'inconclusive', 'key': None, 'violations': [], 'stats': {'thr_hung': 1}, 'summary': 'hung', 'fatal': True}
+        runs += 1
+        ob = real.observe()
+        c = real.coord
+        final = (ob['status'], ob['exc'], c._result, ob['event'], ob['cbs_ran'], ob['cl_ran'])
+        got = (tuple(sorted(res.items())), final)
+        seen_finals.add(final)
+        if got not in outcomes and len(viol) < 3:
+            viol.append(V(f'TransferCoordinator, threads {case["threads"]}: observed per-op results {sorted(res.items())} and final '
+                          f'state {final} match no interleaving of the reference model ({len(outcomes)} possible outcomes)'
+                          + (f'; a thread was held at {case["window"].get("name")}' if inj.window_hits else ''),
+                          cls='TransferCoordinator', sym='not-linearizable'))
     if lock_viol and len(viol) < 4:
         viol.append(V(f'TransferCoordinator: {lock_viol[0][0]} written by {lock_viol[0][1]} without holding the coordinator lock '
                       f'({len(lock_viol)} writes)', cls='TransferCoordinator', sym='lockset'))
-    return {'verdict': 'violated' if viol else 'held', 'key': f'thr-{case["threads"]}', 'violations': viol,
-            'stats': {'thr_runs': runs, 'thr_model_outcomes': len(outcomes), 'thr_distinct_finals': len(seen_finals), 'yield_events': inj.events,
+    return {'verdict': 'violated' if viol else 'held', 'key': f'thr-{case["threads"]}-{(case.get("window") or {}).get("lineno")}', 'violations': viol,
+            'stats': {'thr_runs': runs, 'thr_model_outcomes': len(outcomes), 'thr_distinct_finals': len(seen_finals), 'yield_events': yield_events,
+                      'thr_window_cases': 1 if case.get('window') else 0, 'thr_window_hits': window_hits,
                       'lockset_writes_checked': LOCKSET_COUNT[0]},
             'summary': {'threads': case['threads'], 'finals_seen': sorted(map(repr, seen_finals))[:4]}}
 
@@ -506,7 +628,7 @@ def gen_cases(tier, seed):
     rng = random.Random(seed)
     quick = tier == 'quick'
     cases = [{'type': 'seq', 'depth': 6 if quick else 8}]
-    pool = [o for o in OPS]
+    pool = [o for o in THR_OPS]
     for i in range(120 if quick else 1200):
         n = rng.choice([3, 4, 5])
         ops = [(rng.choice(pool), 10 + j) for j in range(n)]
@@ -517,8 +639,41 @@ def gen_cases(tier, seed):
         threads = [t for t in threads if t]
         if len(threads) < 2:
             continue
+        if any(o[0] == 'obs' for o in ops):
+            threads = [[[('final_task' if o == 'announce' else o), k] for o, k in t] for t in threads]
         cases.append({'type': 'thr', 'threads': threads, 'prefix': rng.choice([[], ['add_cb'], ['add_cb', 'add_cleanup'], ['queued', 'add_cb']]),
                       'seed': rng.randrange(1 << 30), 'yield_p': rng.choice([0.1, 0.4]), 'reps': 4 if quick else 10})
+    # one preemption at every statement of the coordinator's state-changing methods: the thread that reaches the line first is held
+    # there until the other threads have run as far as they can, then everything is compared with the reference model again
+    from .. import windows
+
+    lines = [l for l in windows.candidate_lines(['futures.py']) if l[2].startswith('TransferCoordinator.')]
+    trigger = {'cancel': ['cancel', 'cancel_fatal', 'fut_cancel'], 'set_exception': ['set_exc', 'set_exc_override', 'fut_set_exc'], 'set_result': ['set_result'],
+               'announce_done': ['announce'], '_run_': ['announce'], 'set_status_to_queued': ['queued'], 'set_status_to_running': ['running'],
+               '_transition_to_non_done_state': ['queued', 'running'], 'add_done_callback': ['add_cb'], 'add_failure_cleanup': ['add_cleanup'],
+               'result': ['obs'], 'done': ['obs', 'cancel', 'set_exc']}
+    for line in lines:
+        meth = line[2].split('.', 1)[1]
+        ops1 = next((v for k, v in trigger.items() if meth.startswith(k)), None)
+        if not ops1:
+            continue
+        # the final task of the transfer arriving while the first thread sits at the line, then a user reading the result
+        for o1 in ops1:
+            cases.append({'type': 'thr', 'threads': [[[o1, 10]], [['final_task', 25], ['obs', 29]]], 'prefix': ['queued', 'running', 'add_cb', 'add_cleanup'],
+                          'seed': rng.randrange(1 << 30), 'yield_p': 0.0, 'reps': 1,
+                          'window': {'lineno': line[1], 'nth': 0, 'name': f'futures.py:{line[1]}:{line[2]}'}})
+        for rep in range(3 if quick else 12):
+            t1 = [[rng.choice(ops1), 10]] + ([[rng.choice(pool), 11]] if rng.random() < 0.3 else [])
+            t2 = [[rng.choice(pool), 20 + j] for j in range(rng.choice([0, 1, 2]))] + [['obs', 29]]
+            if rng.random() < 0.6:
+                t2.insert(rng.randrange(len(t2)), ['final_task', 25])
+            # 'obs' is what a user sees once done was announced; the library announces only after the state is final (final
+            # task, failed submission, cancel before start), so a bare announce_done on an unfinished transfer is not mixed with it
+            t1 = [[('final_task' if o == 'announce' else o), k] for o, k in t1]
+            t2 = [[('final_task' if o == 'announce' else o), k] for o, k in t2]
+            cases.append({'type': 'thr', 'threads': [t1, t2], 'prefix': rng.choice([[], ['add_cb'], ['queued', 'add_cb', 'add_cleanup'], ['queued', 'running']]),
+                          'seed': rng.randrange(1 << 30), 'yield_p': 0.0, 'reps': 1,
+                          'window': {'lineno': line[1], 'nth': 0, 'name': f'futures.py:{line[1]}:{line[2]}'}})
     from .c04 import fault_or_cancel
 
     for i in range(120 if quick else 1200):
